@@ -12,7 +12,7 @@ import (
 // and split into two segments at any offset - to exactly those values.  Unsigned packets (signing is C12).
 
 func verifC03Name(tag string, min int) enc.Name {
-	n := make(enc.Name, min+verifChoice(tag+"ncomp", 2))
+	n := make(enc.Name, min+verifChoice(tag+"ncomp", verifParam("pktcomps", 1)+1-min))
 	for i := range n {
 		n[i] = enc.Component{Typ: enc.TypeGenericNameComponent, Val: verifBytesN(tag+"comp", verifChoice(tag+"complen", 3))}
 	}
@@ -23,30 +23,52 @@ func verifC03Readers(wire []byte) enc.ParseReader {
 	if !verifBool("segmented") {
 		return enc.NewBufferReader(wire)
 	}
-	cut := verifChoice("cut", len(wire)+1)
+	// two segments cut at both ends, inside the outer header, inside the name, in the middle, and before each of the
+	// last six bytes (the trailing elements)
+	cuts := []int{0, 1, 2, 3, 4, 6, len(wire) / 2, len(wire) - 6, len(wire) - 5, len(wire) - 4, len(wire) - 3, len(wire) - 2, len(wire) - 1, len(wire)}
+	cut := cuts[verifChoice("cut", len(cuts))]
+	if cut < 0 {
+		cut = 0
+	}
+	if cut > len(wire) {
+		cut = len(wire)
+	}
 	return enc.NewWireReader(enc.Wire{wire[:cut], wire[cut:]})
 }
 
 func VerifC03_InterestRT() {
 	name := verifC03Name("n", 1)
 	cfg := &ndn.InterestConfig{CanBePrefix: verifBool("cbp"), MustBeFresh: verifBool("mbf")}
-	if verifBool("hasNonce") {
+	// optional fields: none, all, each alone, all but one
+	const nopt = 5
+	all := uint(1)<<nopt - 1
+	mask := all
+	switch k := verifChoice("mask", 2*nopt+2); {
+	case k == 0:
+		mask = 0
+	case k == 1:
+	case k < 2+nopt:
+		mask = 1 << uint(k-2)
+	default:
+		mask = all &^ (1 << uint(k-2-nopt))
+	}
+	if mask&1 != 0 {
 		v := verifRange("nonce", 0, 1<<32-1)
 		cfg.Nonce = &v
 	}
-	if verifBool("hasLifetime") {
+	if mask&2 != 0 {
 		v := time.Duration(verifRange("lifetimeMs", 0, 1<<40)) * time.Millisecond
 		cfg.Lifetime = &v
 	}
-	if verifBool("hasHop") {
+	if mask&4 != 0 {
 		v := uint(verifRange("hop", 0, 255))
 		cfg.HopLimit = &v
 	}
-	if verifBool("hasHint") {
+	if mask&8 != 0 {
 		cfg.ForwardingHint = []enc.Name{verifC03Name("h", 1)}
 	}
 	var app enc.Wire
-	if verifBool("hasApp") {
+	if mask&16 != 0 {
 		app = enc.Wire{verifBytesN("app", verifChoice("applen", 3))}
 	}
 	var ei *ndn.EncodedInterest
@@ -90,7 +112,7 @@ func VerifC03_InterestRT() {
 	verifObserve("wirelen", len(wire))
 }
 
-var verifC03ContentLens = []int{0, 1, 2, 252, 253, 254, 65535, 65536}
+var verifC03ContentLens = []int{0, 1, 253, 65536, 252, 2, 254, 65535}
 
 func VerifC03_DataRT() {
 	name := verifC03Name("n", 0)
@@ -107,7 +129,7 @@ func VerifC03_DataRT() {
 		c := enc.Component{Typ: enc.TypeSegmentNameComponent, Val: verifBytesN("final", 1+verifChoice("finallen", 2))}
 		cfg.FinalBlockID = &c
 	}
-	clen := verifC03ContentLens[verifChoice("clen", len(verifC03ContentLens))]
+	clen := verifC03ContentLens[verifChoice("clen", verifParam("nclens", len(verifC03ContentLens)))]
 	var content enc.Wire
 	if clen <= 2 {
 		content = enc.Wire{verifBytesN("content", clen)}
